@@ -143,7 +143,8 @@ pub fn gen(rng: &mut Rng, thorough: bool, sink: &mut Sink) {
     sink.case(bcase(1, format!("did:iota:{}:0x{}", n, hexs).as_bytes()), "parse-network");
   }
   // (b2) every construction route on the interesting spellings
-  for n in ["", "iota:", "IOTA:", "smr:", "Smr:", "iota1:", "abcdefg:", "a:b:"] { for t in [tag, tag_up, "0x", ""] { for m in ["iota", "IOTA", "key"] { for tl in ["", "#f", "/p", "?q=1", " ", "#", "?", "?#", "/", "/#"] {
+  let tag_mixed = "0xF29dd16310c2100fd1bf568b345fb1cc14d71caa3bd9b5ad735d2bd6d455CA3b"; let tag_one_up = "0xf29dd16310c2100fd1bf568b345fb1cc14d71caa3bd9b5ad735d2bd6d455ca3B";
+  for n in ["", "iota:", "IOTA:", "Iota:", "smr:", "Smr:", "iota1:", "abcdefg:", "a:b:"] { for t in [tag, tag_up, tag_mixed, tag_one_up, "0x", ""] { for m in ["iota", "IOTA", "key"] { for tl in ["", "#f", "/p", "?q=1", " ", "#", "?", "?#", "/", "/#"] {
     sink.case(bcase(4, format!("did:{}:{}{}{}", m, n, t, tl).as_bytes()), "routes"); } } } }
   // (c) equality pairs
   let t2 = "0x0000000000000000000000000000000000000000000000000000000000000001";
